@@ -248,6 +248,13 @@ const prelude = `(set-option :produce-models true)
 (declare-sort Opq 0)
 (declare-fun inil () Iface)
 (declare-fun fnil () Fn)
+(declare-fun fcode (Fn) (_ BitVec 32))
+(declare-fun fbindfn0 (Fn) Fn)
+(declare-fun fbindfn1 (Fn) Fn)
+(declare-fun fbindfn2 (Fn) Fn)
+(declare-fun fbindref0 (Fn) (_ BitVec 32))
+(declare-fun fbindref1 (Fn) (_ BitVec 32))
+(declare-fun fbindref2 (Fn) (_ BitVec 32))
 (declare-fun str.empty () Str)
 (declare-fun slen (Str) (_ BitVec 64))
 (declare-fun sarr (Str) (Array (_ BitVec 64) (_ BitVec 8)))
